@@ -53,7 +53,10 @@ POOLS = {
     'claw_decor_place_type': (PLACES, [1, 2, 'FIRST', None]),
     'claw_skip_package_names': ([(), ('a',), ('a', 'b.c'), frozenset({'a'}), ('a',) + ()],
                                 [('a b',), (1,), 5, None, ('',), ('a.',), [1]]),
-    'hint_overrides': ([FrozenDict(), FrozenDict({int: str}), FrozenDict({int: str}), FrozenDict({str: bytes})],
+    'hint_overrides': ([FrozenDict(), FrozenDict({int: str}), FrozenDict({int: str}), FrozenDict({str: bytes}),
+                        # equal mappings written in different orders (dict equality ignores insertion order)
+                        FrozenDict({int: str, bytes: bool}), FrozenDict({bytes: bool, int: str}),
+                        FrozenDict({int: str, bytes: bool, list: tuple}), FrozenDict({list: tuple, bytes: bool, int: str})],
                        [{}, {int: str}, None, ((int, str),)]),
     'is_color': ([True, False, None], [1, 0, 1.0, 'yes', 2]),
     'strategy': (STRATS, [1, 2, 4, 'O1', None]),
